@@ -49,7 +49,20 @@ def _nontrivial(s, w):
 
 
 # ---------------------------------------------------------------------------------------
+def foreign_read(k):
+    """a legal call made EARLIER in the process: the string reader used with its public `encoding` argument set to another codec (a file from
+    another tool). What it leaves behind must not reach the writer, which always stores cp1252."""
+    enc = (None, "utf-8", "latin-1", "ascii", "cp437")[k % 5]
+    if enc is not None:
+        try:
+            _lib().read(4, b"ab\x00\x00", encoding=enc)
+        except Exception:  # noqa
+            pass
+    return enc
+
+
 def check_write(ctx, w, s):
+    ctx.label("after-a-read-with-encoding:" + str(foreign_read(len(s) + w)))
     """the oracle for BTSString.write(w, s)"""
     B = _lib()
     ok_text = cp1252.encodable(s)
@@ -531,6 +544,7 @@ def lib_frame_(e):
 
 def run_sites(ctx, case):
     site, s = case["site"], "".join(chr(c) for c in case["s"])
+    ctx.label("after-a-read-with-encoding:" + str(foreign_read(len(s) + sum(case["s"][:2]))))
     w, writer, expected = _sites()[site]
     valid = cp1252.encodable(s) and len(s) <= w - 1
     try:
